@@ -17,6 +17,18 @@ What is carried:
 * `interpolate` / `interpolate_low`: the degree argument of every call of `generate_real_spherical_harmonics` and
   `generate_derivative_real_spherical_harmonics`.
 
+* (round 3) `convert_cartesian_to_spherical`, statement by statement: the `is_atomic` flag and its two assignments, the
+  `points.ndim == 1` test with the arguments of `reshape`, the default of `center`, the call of `convert_cart_to_sph` (the
+  generated routine of `Gen/Harmonics.lean`), the mask `rgrid.points == 0.0` with the index `[0]` of `np.where`, the slice
+  bounds `self._indices[i]`, `self._indices[i + 1]` and the first column `1:` of the overwritten block;
+* (round 3) the inner `interpolate_low` of `interpolate`, statement by statement: the defaults of its signature, the condition of
+  the warning, the spline tables (`spline(r_pts, deriv)`, `spline(r_pts, 0)`), both harmonics calls with their degree, the three
+  `einsum` contractions with the index of `deriv_sph_harm[k, :, :]`, the two branch conditions (`deriv == 1`, `deriv != 0`),
+  `np.hstack`, the shape of `np.zeros((len(r_pts), 3))`, the loop `range(0, len(r_pts))` with the call of
+  `convert_derivative_from_spherical_to_cartesian` (the generated routine of `Gen/Harmonics.lean`), the `ValueError`;
+* (round 3) the inner `interpolate_low` of `MolGrid.interpolate` (grid/molgrid.py): defaults, `interpolate_funcs[0]`, the loop over
+  `interpolate_funcs[1:]` with `output += …`.
+
 Any other statement or expression shape in those places raises `Untranslatable`.
 """
 import ast
@@ -309,6 +321,411 @@ def _eval_degrees(fn):
     return "\n".join(out)
 
 
+# ------------------------------------------------------------------------------------------------
+# round 3: convert_cartesian_to_spherical, interpolate_low (atomic and molecular), statement by statement
+# ------------------------------------------------------------------------------------------------
+def _need(ok, where, node):
+    if not ok:
+        raise Untranslatable(f"{where}: {_src(node)[:90]}")
+
+
+def _bool_const(e, where):
+    _need(isinstance(e, ast.Constant) and isinstance(e.value, bool), where, e)
+    return "true" if e.value else "false"
+
+
+def _int_const(e, where):
+    """integer literal, possibly negative -> Python int"""
+    if isinstance(e, ast.UnaryOp) and isinstance(e.op, ast.USub) and isinstance(e.operand, ast.Constant) and type(e.operand.value) is int:
+        return -e.operand.value
+    _need(isinstance(e, ast.Constant) and type(e.value) is int, where, e)
+    return e.value
+
+
+NATCMP = {ast.Eq: "=", ast.NotEq: "≠", ast.Lt: "<", ast.LtE: "≤", ast.Gt: ">", ast.GtE: "≥"}
+BOOLCMP = {ast.Eq: "==", ast.NotEq: "!="}
+
+
+def _defaults(fn, names, where):
+    """signature `(points, a=<int>, b=<bool>, c=<bool>)` -> Lean triple of the defaults"""
+    a = fn.args
+    _need([x.arg for x in a.args] == names and not (a.vararg or a.kwarg or a.kwonlyargs or a.posonlyargs) and len(a.defaults) == 3, where + ": signature", fn.args)
+    d0 = _int_const(a.defaults[0], where + ": default of " + names[1])
+    _need(d0 >= 0, where + ": default of " + names[1], a.defaults[0])
+    return f"({d0}, {_bool_const(a.defaults[1], where)}, {_bool_const(a.defaults[2], where)})"
+
+
+def _convert(fn):
+    W = "convert_cartesian_to_spherical"
+    a = fn.args
+    _need([x.arg for x in a.args] == ["self", "points", "center"] and [_src(d) for d in a.defaults] == ["None", "None"], W + ": signature", a)
+    st = _body(fn)
+    _need(len(st) == 7, W + ": number of statements", fn)
+    L = []
+    # 0. is_atomic = False
+    s = st[0]
+    _need(isinstance(s, ast.Assign) and _src(s.targets[0]) == "is_atomic", W, s)
+    L += [f"  -- {_src(s)}", f"  let is_atomic : Bool := {_bool_const(s.value, W)}"]
+    # 1. if points is None: points = self.points; is_atomic = True
+    s = st[1]
+    _need(isinstance(s, ast.If) and _src(s.test) == "points is None" and not s.orelse and len(s.body) == 2
+          and _src(s.body[0]) == "points = self.points" and isinstance(s.body[1], ast.Assign) and _src(s.body[1].targets[0]) == "is_atomic", W, s)
+    L += [f"  -- if {_src(s.test)}: {_src(s.body[0])}; {_src(s.body[1])}",
+          "  let (points, is_atomic) : NdArr K × Bool :=",
+          "    match points with",
+          "    | none =>",
+          "      let points : NdArr K := g.pointsArr",
+          f"      let is_atomic : Bool := {_bool_const(s.body[1].value, W)}",
+          "      (points, is_atomic)",
+          "    | some points => (points, is_atomic)"]
+    # 2. if points.ndim == 1: points = points.reshape(-1, 3)
+    s = st[2]
+    ok = (isinstance(s, ast.If) and not s.orelse and len(s.body) == 1 and isinstance(s.test, ast.Compare) and len(s.test.ops) == 1
+          and _src(s.test.left) == "points.ndim" and type(s.test.ops[0]) in NATCMP)
+    _need(ok, W, s)
+    nd = _int_const(s.test.comparators[0], W)
+    _need(nd >= 0, W, s.test)
+    b = s.body[0]
+    ok = (isinstance(b, ast.Assign) and _src(b.targets[0]) == "points" and isinstance(b.value, ast.Call) and _src(b.value.func) == "points.reshape"
+          and not b.value.keywords and len(b.value.args) >= 1)
+    _need(ok, W, b)
+    dims = ", ".join(f"({_int_const(x, W)} : Int)" for x in b.value.args)
+    L += [f"  -- if {_src(s.test)}: {_src(b)}",
+          "  let points : NdArr K ←",
+          f"    if (points.ndim {NATCMP[type(s.test.ops[0])]} {nd}) then",
+          f"      (match pyReshape points [{dims}] with",
+          "       | some a => pure a",
+          "       | none => Except.error Err.valueError)",
+          "    else pure points"]
+    # 3. center = self.center if center is None else np.asarray(center)
+    s = st[3]
+    _need(_src(s) == "center = self.center if center is None else np.asarray(center)", W, s)
+    L += [f"  -- {_src(s)}",
+          "  let center : K × K × K :=",
+          "    match center with",
+          "    | none => g.center.tup",
+          "    | some center => center"]
+    # 4. spherical_points = convert_cart_to_sph(points, center)
+    s = st[4]
+    _need(_src(s) == "spherical_points = convert_cart_to_sph(points, center)", W, s)
+    L += [f"  -- {_src(s)}", "  let spherical_points ← cartToSphArr points (some center)"]
+    # 5. if is_atomic: r_index = np.where(self.rgrid.points == 0.0)[0]; for i in r_index: …
+    s = st[5]
+    _need(isinstance(s, ast.If) and _src(s.test) == "is_atomic" and not s.orelse and len(s.body) == 2, W, s)
+    w, lp = s.body
+    ok = (isinstance(w, ast.Assign) and _src(w.targets[0]) == "r_index" and isinstance(w.value, ast.Subscript) and _src(w.value.slice) == "0"
+          and isinstance(w.value.value, ast.Call) and _np_attr(w.value.value.func, ("where",)) and len(w.value.value.args) == 1
+          and not w.value.value.keywords and isinstance(w.value.value.args[0], ast.Compare))
+    _need(ok, W, w)
+    sh = IEx({"self.rgrid.points": ("K", "(g.r i)")})
+    cmp_ = w.value.value.args[0]
+    _need(not ({n.id for n in ast.walk(cmp_) if isinstance(n, ast.Name)} - {"self"}), W, w)
+    ok = (isinstance(lp, ast.For) and _src(lp.iter) == "r_index" and isinstance(lp.target, ast.Name) and not lp.orelse and len(lp.body) == 4)
+    _need(ok, W, lp)
+    lv = lp.target.id
+    b0, b1, b2, b3 = lp.body
+    _need(_src(b0) == f"agrid = AngularGrid(degree=self._degs[{lv}], method=self.method)", W, b0)
+    iex = IEx({lv: ("N", lv)})
+    bounds = []
+    for b_ in (b1, b2):
+        _need(isinstance(b_, ast.Assign) and isinstance(b_.targets[0], ast.Name) and isinstance(b_.value, ast.Subscript)
+              and _src(b_.value.value) in ("self._indices", "self.indices"), W, b_)
+        bounds.append((b_.targets[0].id, iex.asNat(iex.tr(b_.value))))
+    (lo, lov), (hi, hiv) = bounds
+    _need(lo != hi, W, b2)
+    # spherical_points[i_index:f_index, 1:] = convert_cart_to_sph(agrid.points)[:, 1:]
+    ok = (isinstance(b3, ast.Assign) and isinstance(b3.targets[0], ast.Subscript) and _src(b3.targets[0].value) == "spherical_points"
+          and isinstance(b3.targets[0].slice, ast.Tuple) and len(b3.targets[0].slice.elts) == 2
+          and _src(b3.targets[0].slice.elts[0]) == f"{lo}:{hi}" and isinstance(b3.targets[0].slice.elts[1], ast.Slice)
+          and isinstance(b3.value, ast.Subscript) and _src(b3.value.value) == "convert_cart_to_sph(agrid.points)"
+          and isinstance(b3.value.slice, ast.Tuple) and len(b3.value.slice.elts) == 2 and _is_slice_all_(b3.value.slice.elts[0])
+          and isinstance(b3.value.slice.elts[1], ast.Slice))
+    _need(ok, W, b3)
+    cl, cr = b3.targets[0].slice.elts[1], b3.value.slice.elts[1]
+    _need(cl.upper is None and cl.step is None and cl.lower is not None and _src(cl) == _src(cr), W + ": column slices of both sides", b3)
+    col = _int_const(cl.lower, W)
+    _need(0 <= col <= 3, W, b3)
+    L += [f"  -- if {_src(s.test)}:",
+          "  let spherical_points : Nat × (Nat → K × K × K) :=",
+          "    if is_atomic then",
+          f"      -- {_src(w)}",
+          f"      let r_index : List Nat := (List.range g.nShells).filter fun i => decide {sh.cond(cmp_)}",
+          f"      -- for {lv} in r_index: {_src(b0)}; {_src(b1)}; {_src(b2)}; {_src(b3)}",
+          f"      r_index.foldl (fun spherical_points {lv} =>",
+          f"        let {lo} : Nat := {lov}",
+          f"        let {hi} : Nat := {hiv}",
+          "        (spherical_points.1, fun j =>",
+          f"          if {lo} ≤ j ∧ j < {hi} then",
+          f"            colsFrom {col} (spherical_points.2 j) (Gen.Harmonics.cartToSph (g.regenPts {lv} (j - {lo})).tup (Gen.Harmonics.centerOrOrigin none))",
+          "          else spherical_points.2 j)) spherical_points",
+          "    else spherical_points"]
+    _need(_src(st[6]) == "return spherical_points", W, st[6])
+    L += ["  -- return spherical_points", "  pure spherical_points", ""]
+    head = [
+        "/-- `convert_cart_to_sph(points, center)` of `grid/utils.py` applied to an array: its generated shape guard",
+        "(`Gen.Harmonics.cartToSphRejectsPoints`), default centre and per-point body (`Gen.Harmonics.cartToSph`);",
+        "answer = (number of rows, row `j` ↦ `(r, θ, φ)`). -/",
+        "def cartToSphArr [LT K] [DecidableLT K] (points : NdArr K) (center : Option (K × K × K)) : Except Err (Nat × (Nat → K × K × K)) :=",
+        "  if Gen.Harmonics.cartToSphRejectsPoints points.ndim (points.shape.getD 1 0) then .error .valueError",
+        "  else .ok (points.shape.getD 0 0, fun j => Gen.Harmonics.cartToSph (points.row3 j) (Gen.Harmonics.centerOrOrigin center))",
+        "",
+        "/-- `AtomGrid.convert_cartesian_to_spherical(points, center)`, statement by statement (`none` = the default `None`).",
+        "`AngularGrid(degree=self._degs[i], method=self.method).points` is the table `g.regenPts i` (an `(N_i, 3)` array). -/",
+        "def convertCartesianToSpherical [LT K] [DecidableLT K] (g : AGrid K) (points : Option (NdArr K)) (center : Option (K × K × K)) :",
+        "    Except Err (Nat × (Nat → K × K × K)) := do"]
+    return "\n".join(head + L)
+
+
+def _is_slice_all_(e):
+    return isinstance(e, ast.Slice) and e.lower is None and e.upper is None and e.step is None
+
+
+def _flag_test(e, where):
+    """`not only_radial_deriv and deriv == 1` -> `(!only_radial_deriv && deriv == 1)`"""
+    ok = (isinstance(e, ast.BoolOp) and isinstance(e.op, ast.And) and len(e.values) == 2 and isinstance(e.values[0], ast.UnaryOp)
+          and isinstance(e.values[0].op, ast.Not) and _src(e.values[0].operand) == "only_radial_deriv"
+          and isinstance(e.values[1], ast.Compare) and len(e.values[1].ops) == 1 and _src(e.values[1].left) == "deriv"
+          and type(e.values[1].ops[0]) in BOOLCMP)
+    _need(ok, where, e)
+    k = _int_const(e.values[1].comparators[0], where)
+    _need(k >= 0, where, e)
+    return f"(!only_radial_deriv && deriv {BOOLCMP[type(e.values[1].ops[0])]} {k})"
+
+
+def _einsum(e, where, tens):
+    """`np.einsum('ij,ij->j', A, B)` with A a table, B a table or `T[k, :, :]` -> Lean `fun j => sumTo nspl fun i => …`"""
+    ok = (isinstance(e, ast.Call) and _np_attr(e.func, ("einsum",)) and len(e.args) == 3 and not e.keywords
+          and isinstance(e.args[0], ast.Constant) and isinstance(e.args[0].value, str) and e.args[0].value.replace(" ", "") == "ij,ij->j"
+          and isinstance(e.args[1], ast.Name))
+    _need(ok, where, e)
+    a = e.args[1].id
+    b = e.args[2]
+    if isinstance(b, ast.Name):
+        bt = b.id
+    else:
+        ok = (isinstance(b, ast.Subscript) and isinstance(b.value, ast.Name) and b.value.id in tens and isinstance(b.slice, ast.Tuple)
+              and len(b.slice.elts) == 3 and _is_slice_all_(b.slice.elts[1]) and _is_slice_all_(b.slice.elts[2]))
+        _need(ok, where, b)
+        k = _int_const(b.slice.elts[0], where)
+        _need(k >= 0, where, b)
+        bt = f"{b.value.id} {k}"
+    return a, bt, f"fun j => sumTo nspl fun i => {a} i j * {bt} i j"
+
+
+def _spline_table(e, where):
+    """`np.array([spline(r_pts, X) for spline in splines])` -> `fun i j => splines i (r_pts j) X`"""
+    ok = (isinstance(e, ast.Call) and _np_attr(e.func, ("array",)) and len(e.args) == 1 and not e.keywords and isinstance(e.args[0], ast.ListComp)
+          and len(e.args[0].generators) == 1 and not e.args[0].generators[0].ifs and _src(e.args[0].generators[0].iter) == "splines"
+          and isinstance(e.args[0].generators[0].target, ast.Name))
+    _need(ok, where, e)
+    v = e.args[0].generators[0].target.id
+    c = e.args[0].elt
+    ok = isinstance(c, ast.Call) and _src(c.func) == v and len(c.args) == 2 and not c.keywords and _src(c.args[0]) == "r_pts"
+    _need(ok, where, e)
+    if isinstance(c.args[1], ast.Name):
+        _need(c.args[1].id == "deriv", where, e)
+        nu = "deriv"
+    else:
+        k = _int_const(c.args[1], where)
+        _need(k >= 0, where, e)
+        nu = str(k)
+    return f"fun i j => splines i (r_pts j) {nu}"
+
+
+def _harm_call(e, fname, where):
+    ok = (isinstance(e, ast.Call) and isinstance(e.func, ast.Name) and e.func.id == fname)
+    _need(ok, where, e)
+    deg, _ = _degree_arg(e, where)
+    return deg.replace("l_max", "g.lMax")
+
+
+def _interp_low(outer):
+    W = "interpolate_low"
+    b = _body(outer)
+    _need(len(b) == 3 and _src(b[0]) == "splines = self.radial_component_splines(func_vals)" and isinstance(b[1], ast.FunctionDef)
+          and b[1].name == "interpolate_low" and _src(b[2]) == "return interpolate_low", "interpolate: body", outer)
+    fn = b[1]
+    dflt = _defaults(fn, ["points", "deriv", "deriv_spherical", "only_radial_deriv"], W)
+    st = _body(fn)
+    _need(len(st) == 6, W + ": number of statements", fn)
+    out = ["/-- defaults of `interpolate_low(points, deriv, deriv_spherical, only_radial_deriv)` (signature of the inner function of `interpolate`). -/",
+           f"def interpolateLowDefaults : Nat × Bool × Bool := {dflt}", ""]
+    # 0. the warning
+    s = st[0]
+    ok = (isinstance(s, ast.If) and not s.orelse and len(s.body) == 1 and isinstance(s.body[0], ast.Expr) and isinstance(s.body[0].value, ast.Call)
+          and _src(s.body[0].value.func) == "warnings.warn" and isinstance(s.test, ast.BoolOp) and isinstance(s.test.op, (ast.And, ast.Or))
+          and all(isinstance(v, ast.Name) and v.id in ("deriv_spherical", "only_radial_deriv") for v in s.test.values))
+    _need(ok, W, s)
+    op = " && " if isinstance(s.test.op, ast.And) else " || "
+    out += [f"/-- `interpolate_low`: `if {_src(s.test)}: warnings.warn(…)` — when the warning is issued (the result does not depend on it). -/",
+            f"def warnsFlagIgnored (deriv_spherical only_radial_deriv : Bool) : Bool := ({op.join(v.id for v in s.test.values)})", ""]
+    L = []
+    # 1. r_pts, theta, phi = self.convert_cartesian_to_spherical(points).T
+    s = st[1]
+    _need(_src(s) == "r_pts, theta, phi = self.convert_cartesian_to_spherical(points).T", W, s)
+    L += [f"  -- {_src(s)}",
+          "  let sph ← convertCartesianToSpherical g (some points) none",
+          "  let npts : Nat := sph.1",
+          "  let r_pts : Nat → K := fun j => (sph.2 j).1",
+          "  let theta : Nat → K := fun j => (sph.2 j).2.1",
+          "  let phi : Nat → K := fun j => (sph.2 j).2.2"]
+    # 2. r_values
+    s = st[2]
+    _need(isinstance(s, ast.Assign) and _src(s.targets[0]) == "r_values", W, s)
+    L += [f"  -- {_src(s)}", f"  let r_values : Nat → Nat → K := {_spline_table(s.value, W)}"]
+    # 3. r_sph_harm
+    s = st[3]
+    _need(isinstance(s, ast.Assign) and _src(s.targets[0]) == "r_sph_harm", W, s)
+    L += [f"  -- {_src(s)}", f"  let r_sph_harm : Nat → Nat → K := fun i j => Yl {_harm_call(s.value, 'generate_real_spherical_harmonics', W)} i (theta j) (phi j)"]
+    # 4. the derivative branch
+    s = st[4]
+    _need(isinstance(s, ast.If) and len(s.orelse) == 1 and isinstance(s.orelse[0], ast.If) and not s.orelse[0].orelse and len(s.body) == 9, W, s)
+    L += [f"  -- if {_src(s.test)}:", f"  if {_flag_test(s.test, W)} then"]
+    c0, c1, c2, c3, c4, c5, c6, c7, c8 = s.body
+    _need(isinstance(c0, ast.Assign) and _src(c0.targets[0]) == "radial_components", W, c0)
+    L += [f"    -- {_src(c0)}", f"    let radial_components : Nat → Nat → K := {_spline_table(c0.value, W)}"]
+    _need(isinstance(c1, ast.Assign) and _src(c1.targets[0]) == "deriv_sph_harm", W, c1)
+    L += [f"    -- {_src(c1)}",
+          f"    let deriv_sph_harm : Nat → Nat → Nat → K := fun a i j => dYl {_harm_call(c1.value, 'generate_derivative_real_spherical_harmonics', W)} a i (theta j) (phi j)"]
+    tables = {"r_values", "r_sph_harm", "radial_components"}
+    for c, name in ((c2, "deriv_r"), (c3, "deriv_theta"), (c4, "deriv_phi")):
+        _need(isinstance(c, ast.Assign) and _src(c.targets[0]) == name, W, c)
+        a_, b_, txt = _einsum(c.value, W, {"deriv_sph_harm"})
+        _need(a_ in tables and (b_ in tables or b_.startswith("deriv_sph_harm ")), W, c)
+        L += [f"    -- {_src(c)}", f"    let {name} : Nat → K := {txt}"]
+    # if deriv_spherical: return np.hstack((deriv_r, deriv_theta, deriv_phi))
+    ok = (isinstance(c5, ast.If) and _src(c5.test) == "deriv_spherical" and not c5.orelse and len(c5.body) == 1 and isinstance(c5.body[0], ast.Return)
+          and isinstance(c5.body[0].value, ast.Call) and _np_attr(c5.body[0].value.func, ("hstack",)) and len(c5.body[0].value.args) == 1
+          and isinstance(c5.body[0].value.args[0], ast.Tuple) and all(isinstance(x, ast.Name) and x.id in ("deriv_r", "deriv_theta", "deriv_phi") for x in c5.body[0].value.args[0].elts))
+    _need(ok, W, c5)
+    parts = [x.id for x in c5.body[0].value.args[0].elts]
+    L += [f"    -- if {_src(c5.test)}: {_src(c5.body[0])}",
+          "    if deriv_spherical then",
+          f"      Except.ok ([{' + '.join('npts' for _ in parts)}], {' ++ '.join(f'(List.range npts).map {x}' for x in parts)})",
+          "    else"]
+    # derivs = np.zeros((len(r_pts), 3))
+    ok = (isinstance(c6, ast.Assign) and _src(c6.targets[0]) == "derivs" and isinstance(c6.value, ast.Call) and _np_attr(c6.value.func, ("zeros",))
+          and len(c6.value.args) == 1 and not c6.value.keywords and isinstance(c6.value.args[0], ast.Tuple) and len(c6.value.args[0].elts) == 2
+          and _src(c6.value.args[0].elts[0]) == "len(r_pts)")
+    _need(ok, W, c6)
+    ncol = _int_const(c6.value.args[0].elts[1], W)
+    _need(ncol >= 0, W, c6)
+    L += [f"    -- {_src(c6)}", f"    let derivs : List (List K) := List.replicate npts (List.replicate {ncol} ((0 : Nat) : K))"]
+    # for i_pt in range(0, len(r_pts)): …
+    ok = (isinstance(c7, ast.For) and isinstance(c7.target, ast.Name) and not c7.orelse and len(c7.body) == 2 and isinstance(c7.iter, ast.Call)
+          and _src(c7.iter.func) == "range" and len(c7.iter.args) == 2 and not c7.iter.keywords and _src(c7.iter.args[1]) == "len(r_pts)")
+    _need(ok, W, c7)
+    lo = _int_const(c7.iter.args[0], W)
+    _need(lo >= 0, W, c7)
+    iv = c7.target.id
+    t0, t1 = c7.body
+    ok = (isinstance(t0, ast.Assign) and isinstance(t0.targets[0], ast.Tuple) and isinstance(t0.value, ast.Tuple)
+          and len(t0.targets[0].elts) == len(t0.value.elts) and all(isinstance(x, ast.Name) for x in t0.targets[0].elts))
+    _need(ok, W, t0)
+    vecs = {"r_pts", "theta", "phi", "deriv_r", "deriv_theta", "deriv_phi"}
+    loc = {}
+    lets = []
+    for tgt, val in zip(t0.targets[0].elts, t0.value.elts):
+        _need(isinstance(val, ast.Subscript) and isinstance(val.value, ast.Name) and val.value.id in vecs and _src(val.slice) == iv, W, t0)
+        loc[tgt.id] = True
+        lets.append(f"      let {tgt.id} : K := {val.value.id} {iv}")
+    ok = (isinstance(t1, ast.Assign) and _src(t1.targets[0]) == f"derivs[{iv}]" and isinstance(t1.value, ast.Call)
+          and _src(t1.value.func) == "convert_derivative_from_spherical_to_cartesian" and len(t1.value.args) == 6 and not t1.value.keywords)
+    _need(ok, W, t1)
+    args = []
+    for x in t1.value.args:
+        if isinstance(x, ast.Name) and x.id in loc:
+            args.append(x.id)
+        else:
+            _need(isinstance(x, ast.Subscript) and isinstance(x.value, ast.Name) and x.value.id in vecs and _src(x.slice) == iv, W, t1)
+            args.append(f"({x.value.id} {iv})")
+    L += [f"    -- for {iv} in {_src(c7.iter)}: {_src(t0)}; {_src(t1)}",
+          f"    let derivs : List (List K) := (List.range' {lo} (npts - {lo})).foldl (fun derivs {iv} =>"] + lets + [
+          f"      derivs.set {iv} (Gen.Harmonics.convDeriv {' '.join(args)})) derivs"]
+    _need(_src(c8) == "return derivs", W, c8)
+    L += ["    -- return derivs", f"    Except.ok ([npts, {ncol}], derivs.flatten)"]
+    # elif not only_radial_deriv and deriv != 0: raise ValueError
+    e = s.orelse[0]
+    _need(len(e.body) == 1 and isinstance(e.body[0], ast.Raise) and _src(e.body[0].exc).startswith("ValueError("), W, e)
+    L += [f"  -- elif {_src(e.test)}: raise ValueError(…)", f"  else if {_flag_test(e.test, W)} then", "    Except.error Err.valueError", "  else"]
+    # 5. return np.einsum('ij, ij -> j', r_values, r_sph_harm)
+    s5 = st[5]
+    _need(isinstance(s5, ast.Return), W, s5)
+    a_, b_, txt = _einsum(s5.value, W, set())
+    _need(a_ in tables and b_ in tables, W, s5)
+    L += [f"  -- {_src(s5)}", f"  Except.ok ([npts], (List.range npts).map {txt})", ""]
+    head = ["/-- The inner `interpolate_low(points, deriv, deriv_spherical, only_radial_deriv)` of `AtomGrid.interpolate`, statement by statement.",
+            "`splines` (`nspl = len(splines)`): the callables `spline(x, nu)`; `Yl d` / `dYl d` : the rows of `generate_real_spherical_harmonics(d, θ, φ)` /",
+            "of `generate_derivative_real_spherical_harmonics(d, θ, φ)[a]` (property C08); the first operand of each `einsum` fixes the extent of `i`;",
+            "answer = (shape, data in C order). -/",
+            "def interpolateLow [LT K] [DecidableLT K] (g : AGrid K) (nspl : Nat) (splines : Nat → K → Nat → K)",
+            "    (Yl : Nat → Nat → K → K → K) (dYl : Nat → Nat → Nat → K → K → K)",
+            "    (points : NdArr K) (deriv : Nat) (deriv_spherical only_radial_deriv : Bool) : Except Err (List Nat × List K) := do"]
+    return "\n".join(out + head + L)
+
+
+def _mol_low():
+    W = "MolGrid.interpolate.interpolate_low"
+    tree = ast.parse((SRC / "molgrid.py").read_text())
+    cls = next((n for n in tree.body if isinstance(n, ast.ClassDef) and n.name == "MolGrid"), None)
+    if cls is None:
+        raise Untranslatable("class MolGrid not found")
+    outer = _method(cls, "interpolate")
+    b = _body(outer)
+    _need(len(b) >= 2 and isinstance(b[-2], ast.FunctionDef) and b[-2].name == "interpolate_low" and _src(b[-1]) == "return interpolate_low", W, outer)
+    fn = b[-2]
+    names = ["points", "deriv", "deriv_spherical", "only_radial_derivs"]
+    dflt = _defaults(fn, names, W)
+    st = _body(fn)
+    _need(len(st) == 3, W + ": number of statements", fn)
+    callargs = ", ".join(names)
+    s0, s1, s2 = st
+    ok = (isinstance(s0, ast.Assign) and _src(s0.targets[0]) == "output" and isinstance(s0.value, ast.Call) and isinstance(s0.value.func, ast.Subscript)
+          and _src(s0.value.func.value) == "interpolate_funcs" and not s0.value.keywords and ", ".join(_src(a) for a in s0.value.args) == callargs)
+    _need(ok, W, s0)
+    k0 = _int_const(s0.value.func.slice, W)
+    _need(k0 >= 0, W, s0)
+    ok = (isinstance(s1, ast.For) and isinstance(s1.target, ast.Name) and not s1.orelse and len(s1.body) == 1 and isinstance(s1.iter, ast.Subscript)
+          and _src(s1.iter.value) == "interpolate_funcs" and isinstance(s1.iter.slice, ast.Slice) and s1.iter.slice.upper is None
+          and s1.iter.slice.step is None and s1.iter.slice.lower is not None)
+    _need(ok, W, s1)
+    k1 = _int_const(s1.iter.slice.lower, W)
+    _need(k1 >= 0, W, s1)
+    fv = s1.target.id
+    a1 = s1.body[0]
+    ok = (isinstance(a1, ast.AugAssign) and isinstance(a1.op, ast.Add) and _src(a1.target) == "output" and isinstance(a1.value, ast.Call)
+          and _src(a1.value.func) == fv and not a1.value.keywords and ", ".join(_src(a) for a in a1.value.args) == callargs)
+    _need(ok, W, a1)
+    _need(_src(s2) == "return output", W, s2)
+    largs = "points deriv deriv_spherical only_radial_derivs"
+    return "\n".join([
+        "/-- defaults of the inner `interpolate_low(points, deriv, deriv_spherical, only_radial_derivs)` of `MolGrid.interpolate`. -/",
+        f"def molInterpolateLowDefaults : Nat × Bool × Bool := {dflt}", "",
+        "/-- The inner `interpolate_low` of `MolGrid.interpolate` (grid/molgrid.py), statement by statement; `interpolate_funcs`: the callables",
+        "returned by `AtomGrid.interpolate` for the atoms, `output += …` = entrywise sum of arrays of one shape (`addOut`). -/",
+        "def molInterpolateLow {P : Type} (interpolate_funcs : List (P → Nat → Bool → Bool → Except Err (List Nat × List K)))",
+        "    (points : P) (deriv : Nat) (deriv_spherical only_radial_derivs : Bool) : Except Err (List Nat × List K) := do",
+        f"  -- {_src(s0)}",
+        f"  let f0 ← (match interpolate_funcs[{k0}]? with | some f => pure f | none => Except.error Err.indexError)",
+        f"  let output ← f0 {largs}",
+        f"  -- for {fv} in {_src(s1.iter)}: {_src(a1)}",
+        f"  let output ← (interpolate_funcs.drop {k1}).foldlM (fun output {fv} => do",
+        f"    let rhs ← {fv} {largs}",
+        "    pure (output.1, addOut output.2 rhs.2)) output",
+        "  -- return output",
+        "  pure output", ""])
+
+
+def _basis_angles(fn):
+    """`theta, phi = self.convert_cartesian_to_spherical().T[1:]` of radial_component_splines (text checked by `_splines`)."""
+    return "\n".join([
+        "/-- `radial_component_splines`: `theta, phi = self.convert_cartesian_to_spherical().T[1:]` through the generated",
+        "`convert_cartesian_to_spherical` (rows `1:` of the transposed array = the two angle columns). -/",
+        "def basisAngles [LT K] [DecidableLT K] (g : AGrid K) : Except Err (Nat → K × K) := do",
+        "  let sph ← convertCartesianToSpherical g none none",
+        "  pure fun j => ((sph.2 j).2.1, (sph.2 j).2.2)", ""])
+
+
 def render() -> str:
     tree = ast.parse((SRC / "atomgrid.py").read_text())
     cls = next((n for n in tree.body if isinstance(n, ast.ClassDef) and n.name == "AtomGrid"), None)
@@ -316,14 +733,19 @@ def render() -> str:
         raise Untranslatable("class AtomGrid not found")
     parts = [
         HEADER.format(name="atominterp", source="src/grid/atomgrid.py (AtomGrid.integrate_angular_coordinates, spherical_average, "
-                      "radial_component_splines, the harmonics calls of interpolate)"),
-        "import GridVerif.Model.Elem\nimport GridVerif.Model.AtomInterp\n\nset_option linter.unusedVariables false\n",
-        "namespace GridVerif.Gen.AtomInterp\nopen GridVerif.AtomInterp (AGrid sumTo sumIco gridAngles)\n",
+                      "radial_component_splines, convert_cartesian_to_spherical, interpolate with its inner interpolate_low) and "
+                      "src/grid/molgrid.py (the inner interpolate_low of MolGrid.interpolate)"),
+        "import GridVerif.Model.Elem\nimport GridVerif.Model.AtomInterp\nimport GridVerif.Gen.Harmonics\n\nset_option linter.unusedVariables false\n",
+        "namespace GridVerif.Gen.AtomInterp\nopen GridVerif.AtomInterp (AGrid sumTo sumIco gridAngles NdArr pyReshape colsFrom Err addOut)\nopen GridVerif.GenBase (eqK)\n",
         "section generic\nvariable {K : Type} [Add K] [Sub K] [Mul K] [Div K] [Neg K] [NatCast K] [Elem K]\n",
         _integrate(_method(cls, "integrate_angular_coordinates")),
         _average(_method(cls, "spherical_average")),
         _splines(_method(cls, "radial_component_splines")),
         _eval_degrees(_method(cls, "interpolate")),
+        _convert(_method(cls, "convert_cartesian_to_spherical")),
+        _basis_angles(_method(cls, "radial_component_splines")),
+        _interp_low(_method(cls, "interpolate")),
+        _mol_low(),
         "end generic\n\nend GridVerif.Gen.AtomInterp\n",
     ]
     return "\n".join(parts)
